@@ -211,14 +211,14 @@ def ref_drop(miss, axis, cond_all):
 def frame_fillers(rlabels, clabels, tier):
     """name -> (builder(sf) -> Frame, dict of covered cells)"""
     out = {}
-    # F1: full cover, both axes reversed, int values
+    # F1: full cover, both axes reversed, float values
     rl, cl = rlabels[::-1], clabels[::-1]
-    d1 = {(a, b): 1000 + 10 * i + j for i, a in enumerate(rl) for j, b in enumerate(cl)}
-    out['full-rev-int'] = (rl, cl, d1, np.int64)
-    # F2: partial cover + extraneous labels, float values
+    d1 = {(a, b): 1000.25 + 10 * i + j for i, a in enumerate(rl) for j, b in enumerate(cl)}
+    out['full-rev-float'] = (rl, cl, d1, np.float64)
+    # F2: partial cover + extraneous labels, int values (the library aligns the filler with a dummy 0 that must never surface)
     rl, cl = rlabels[0::2] + ['zz'], clabels[1:] + ['qq']
-    d2 = {(a, b): 0.25 + i + 10 * j for i, a in enumerate(rl) for j, b in enumerate(cl)}
-    out['partial-float'] = (rl, cl, d2, np.float64)
+    d2 = {(a, b): 500 + i + 10 * j for i, a in enumerate(rl) for j, b in enumerate(cl)}
+    out['partial-int'] = (rl, cl, d2, np.int64)
     if tier != 'quick':
         rl, cl = rlabels[-1:], clabels[:]
         d3 = {(a, b): f'w{j}' for i, a in enumerate(rl) for j, b in enumerate(cl)}
@@ -239,9 +239,9 @@ def build_frame_filler(spec):
 def series_fillers(labels):
     out = {}
     rl = labels[::-1]
-    out['full-rev-int'] = (rl, {a: 1000 + i for i, a in enumerate(rl)}, np.int64)
+    out['full-rev-float'] = (rl, {a: 1000.25 + i for i, a in enumerate(rl)}, np.float64)
     rl = labels[0::2] + ['zz']
-    out['partial-float'] = (rl, {a: 0.25 + i for i, a in enumerate(rl)}, np.float64)
+    out['partial-int'] = (rl, {a: 500 + i for i, a in enumerate(rl)}, np.int64)
     rl = labels[-1:]
     out['last-str'] = (rl, {a: 'ww' for a in rl}, '<U2')
     return out
@@ -267,7 +267,7 @@ def frame_ops(rows, ncols, tier):
     elems = ('int', 'str') if tier == 'quick' else ('int', 'str', 'float', 'bool')
     for e in elems:
         ops.append(('fillna', e))
-    for name in ('full-rev-int', 'partial-float') + (() if tier == 'quick' else ('lastrow-str',)):
+    for name in ('full-rev-float', 'partial-int') + (() if tier == 'quick' else ('lastrow-str',)):
         for scheme in ('str', 'obj'):
             ops.append(('fillna_frame', name, scheme))
     for axis in (0, 1):
@@ -287,7 +287,7 @@ def series_ops(n):
         ops.append(('fillna', e))
         ops.append(('fillna_leading', e))
         ops.append(('fillna_trailing', e))
-    for name in ('full-rev-int', 'partial-float', 'last-str'):
+    for name in ('full-rev-float', 'partial-int', 'last-str'):
         for scheme in ('str', 'obj'):
             ops.append(('fillna_series', name, scheme))
     for limit in range(0, n + 2):
